@@ -376,6 +376,7 @@ def run(repo: Repo, ctx) -> None:
     _r7(repo, ctx)
     _r8(repo, ctx)
     _r9(repo, ctx)
+    _r10(repo, ctx)
 
 
 def _r6(repo: Repo, ctx) -> None:
@@ -732,6 +733,38 @@ def _r9(repo: Repo, ctx) -> None:
            'in the policy\'s context (rewrites ignored) and that rewrite '
            'is reused by the query proper', ns.loc,
            sample='suppress_rewrites test dominates try_type_rewrite')
+
+
+def _r10(repo: Repo, ctx) -> None:
+    """C07.R10 a policy's WHEN condition always restricts it.
+
+    In compile_pol, whenever the policy has a condition
+    (`pol.get_condition(schema)` truthy) the compiled expression is the
+    conjunction of that condition with the rest -- on *every* path, in
+    particular also when the policy has no USING expression (`when (c) allow
+    select` means `c`, not `true`)."""
+    from ..absint import Facts, must_pass
+    ctx.floor('C07.R10', 1)
+    cp = repo.func('edb.edgeql.compiler.policies.compile_pol')
+    ctx.saw(cp)
+    g = CFG(cp.node)
+    conj = [n.id for n in g.nodes if n.kind == 'stmt' and n.ast is not None
+            and any(isinstance(c, ast.Call) and norm(c.func) == 'qlast.BinOp'
+                    and any(k.arg == 'op' and isinstance(
+                        k.value, ast.Constant) and k.value.value == 'AND'
+                        for k in c.keywords)
+                    and 'condition' in norm(c) for c in ast.walk(n.ast))]
+    if not conj:
+        raise AnalysisError('C07.R10: condition conjunction of compile_pol '
+                            'not found')
+    fx = Facts({'pol.get_condition(schema)': True}, fn_node=cp.node)
+    ok = must_pass(g, fx, conj)
+    ctx.ob('C07.R10', 'compile_pol:when-condition-always-applied', ok,
+           'a policy with a WHEN condition can be compiled without it (the '
+           'conjunction with the condition is skipped on some path, e.g. '
+           'when there is no USING expression): `when (c) allow select` '
+           'then lets every row through on every read path', cp.loc,
+           sample="BinOp(op='AND', left=condition, ...) on every path")
 
 
 def _callers(repo: Repo, pkg: str, name: str):
